@@ -1,2 +1,5 @@
 pub mod c08;
 pub mod c09;
+pub mod c13;
+pub mod c14;
+pub mod c16;
